@@ -8,7 +8,7 @@
 (*                                                                         *)
 (* IDs are quad strings (A5Digits); strings are sequences of ASCII codes.  *)
 (***************************************************************************)
-EXTENDS A5Compact, A5Hilbert, A5Origins, TLC
+EXTENDS A5Compact, A5Hilbert, A5Origins, A5Mesh, TLC
 
 IsCanonRes(q, r) == IsQuads(q) /\ Canonical(q) /\ ResOfCanon(q) = r
 
@@ -386,4 +386,56 @@ ProjStepOK(e, th, others) ==
 
 PurityOK(e) == Len(e.results) >= 1 /\ \A i \in 1..Len(e.results) : e.results[i] = e.results[1]
 InstancesOK(e) == NoRepeats(e.addresses)
+---------------------------------------------------------------------------
+(* C01 / C02: lookup <-> geometry.  e.class is the harness's classification of the query point  *)
+(* against the answering cell: "deep" | "in" | "band" | "out" (beyond the 1e-12 rad band by the  *)
+(* fine planar measure, or beyond the measured sagitta allowance by the independent ring oracle) *)
+
+LookupOK(e) == e.ok /\ IsQuads(e.id) /\ IsCanonRes(e.id, e.res) /\ e.class \in {"deep", "in", "band"}
+\* a point next to an edge/vertex of cell e.id: whoever answers must contain it (C01)
+Interior1OK(e) == e.ok /\ IsQuads(e.back) /\ IsCanonRes(e.back, e.res) /\ e.back_class \in {"deep", "in", "band"}
+\* the centre of a cell maps back to the cell; so does every point inside by more than the tolerance (C02)
+CentreOK(e) == e.ok /\ e.back = e.id
+Interior2OK(e) == e.class = "deep" => (e.ok /\ e.back = e.id)
+
+---------------------------------------------------------------------------
+(* C03: partition *)
+
+\* strictly inside at most one of the candidate cells around the point
+OwnersOK(e) ==
+  /\ Len(e.classes) = Len(e.cands) /\ NoRepeats(e.cands)
+  /\ \A i \in 1..Len(e.cands) : IsCanonRes(e.cands[i], e.res)
+  /\ Cardinality({i \in 1..Len(e.classes) : e.classes[i] = "deep"}) <= 1
+
+\* a batch of cells (vertex ids snapped by the harness, counter-clockwise) added to the growing surface
+MeshCellsResult(e, mesh) == AddCells(e.cells, 1, mesh)
+MeshCellsShapeOK(e) == \A k \in 1..Len(e.cells) : IsCanonRes(e.cells[k].id, e.res)
+MeshEndOK(e, mesh) ==
+  LET n == NumCells(e.res) IN
+  /\ mesh.faces = n[1] * Pow4(n[2])                    \* every cell of the resolution was added
+  /\ Closed(mesh)                                      \* every edge twinned once, V - E + F = 2
+  /\ Cardinality(Verts(mesh)) = e.nverts
+  /\ mesh.devsum <= 30 * mesh.faces /\ -mesh.devsum <= 30 * mesh.faces   \* total area = 4 pi (to 30 ppm: chord deficit of the 64-segment rings at res 0-1)
+
+---------------------------------------------------------------------------
+(* C04: equal area *)
+AreaTolPpm(res) == 100
+AreaOK(e) == IsCanonRes(e.id, e.res) /\ e.dev_ppm <= AreaTolPpm(e.res) /\ -e.dev_ppm <= AreaTolPpm(e.res)
+AreaMetaOK(e) ==
+  /\ e.ratio_dev_ppb <= 1 /\ e.ratio_dev_ppb >= -1          \* cell_area(r) * cells(r) = authalic area of the Earth
+  /\ e.count_exact => e.count_mant = (IF e.res = 0 THEN 12 ELSE 60)   \* get_num_cells(r) = 60 * 4^(r-1)
+
+---------------------------------------------------------------------------
+(* C11: boundary ring *)
+RingVerts(res) == IF res = 1 THEN 3 ELSE 5
+DefaultSegs(res) == IF res >= 6 THEN 1 ELSE 2 ^ (6 - res)
+BoundaryOK(e) ==
+  /\ e.ok /\ IsCanonRes(e.id, e.res)
+  /\ LET n == IF e.dflt THEN DefaultSegs(e.res) ELSE e.n
+     IN e.len = RingVerts(e.res) * n + (IF e.closed THEN 1 ELSE 0)
+  /\ (e.closed => e.first_eq_last)
+  /\ e.finite /\ e.lat_ok
+  /\ e.ccw /\ e.centre_inside
+  /\ (~e.touches_pole => e.window_ok)
+  /\ e.corner_dev_e12 <= 1000
 =============================================================================
